@@ -73,11 +73,17 @@ Inductive logev :=
 | LInvalid (sid label : nat)          (* a future was resolved twice (InvalidStateError) *)
 | LBadRef (sid : nat).                (* model-only: dangling object index; proved unreachable *)
 
+(* what is pending on the IOLoop (io_loop.add_callback) *)
+Inductive qitem :=
+| QSet (sid : nat) (st : Z)               (* subproc._set_returncode(status), queued by _try_cleanup_process *)
+| QCall (sid : nat) (c : cbk) (rc : Z).   (* callback(returncode), queued by set_exit_callback on an already reported object *)
+Definition q_sid (x : qitem) : nat := match x with QSet s _ => s | QCall s _ _ => s end.
+
 Record world := mkW {
   w_kern : list (Z * kst);
   w_subs : list sub;
   w_waiting : list (Z * nat);      (* Subprocess._waiting : pid -> object *)
-  w_queue : list (nat * Z);        (* pending io_loop.add_callback(subproc._set_returncode, status) *)
+  w_queue : list qitem;            (* pending io_loop.add_callback(...) calls, oldest first *)
   w_init : bool;                   (* Subprocess._initialized: the SIGCHLD handler is installed *)
   w_log : list logev
 }.
@@ -98,7 +104,7 @@ Definition try_cleanup (w : world) (pid : Z) : world :=
       match a_find pid (w_waiting w) with
       | Some sid =>
           mkW (a_set pid (KReaped st) (w_kern w)) (w_subs w) (a_remove pid (w_waiting w))
-              (w_queue w ++ [(sid, st)]) (w_init w) (w_log w)
+              (w_queue w ++ [QSet sid st]) (w_init w) (w_log w)
       | None =>                               (* pop raises KeyError after the child was reaped *)
           mkW (a_set pid (KReaped st) (w_kern w)) (w_subs w) (w_waiting w)
               (w_queue w) (w_init w) (w_log w ++ [LKeyError pid])
@@ -112,23 +118,34 @@ Definition try_cleanup (w : world) (pid : Z) : world :=
 Definition cleanup (w : world) : world :=
   fold_left try_cleanup (map fst (w_waiting w)) w.
 
-(* ---------- set_exit_callback(cb) on object sid (after the object was
-   prepared by [mk]: wait_for_exit first creates its future) ---------- *)
-Definition register (w : world) (sid : nat) (mk : sub -> sub) : world :=
+(* ---------- set_exit_callback(cb) on object sid.
+   wait_for_exit first creates its future ([prep]) and builds the closure ([cbof], computed from the object as it
+   was before); set_exit_callback then either
+     - (returncode is not None: the exit was already reported) queues callback(returncode) on the IOLoop and returns, or
+     - stores the callback, calls initialize(), puts the object into _waiting and probes the child once. ---------- *)
+Definition set_cb (c : cbk) (s : sub) : sub := mkSub (s_pid s) (Some c) (s_rc s) (s_futs s).
+
+Definition register (w : world) (sid : nat) (prep : sub -> sub) (cbof : sub -> cbk) : world :=
   match nth_error (w_subs w) sid with
   | None => w                                  (* no such object: the event is not executable *)
   | Some s =>
-      let s' := mk s in
-      try_cleanup
-        (mkW (w_kern w) (upd_nth sid s' (w_subs w)) (a_set (s_pid s) sid (w_waiting w))
-             (w_queue w) true (w_log w))
-        (s_pid s)
+      match s_rc s with
+      | Some rc =>
+          mkW (w_kern w) (upd_nth sid (prep s) (w_subs w)) (w_waiting w)
+              (w_queue w ++ [QCall sid (cbof s) rc]) (w_init w) (w_log w)
+      | None =>
+          try_cleanup
+            (mkW (w_kern w) (upd_nth sid (set_cb (cbof s) (prep s)) (w_subs w)) (a_set (s_pid s) sid (w_waiting w))
+                 (w_queue w) true (w_log w))
+            (s_pid s)
+      end
   end.
 
-Definition set_cb (c : cbk) (s : sub) : sub := mkSub (s_pid s) (Some c) (s_rc s) (s_futs s).
-Definition add_fut (label : nat) (raise_error : bool) (s : sub) : sub :=
-  mkSub (s_pid s) (Some (CbFut label (length (s_futs s)) raise_error)) (s_rc s)
-        (s_futs s ++ [(label, FPending)]).
+Definition prep_plain (s : sub) : sub := s.
+Definition cb_plain (label : nat) (s : sub) : cbk := CbPlain label.
+Definition prep_fut (label : nat) (s : sub) : sub :=
+  mkSub (s_pid s) (s_cb s) (s_rc s) (s_futs s ++ [(label, FPending)]).
+Definition cb_fut (label : nat) (raise_error : bool) (s : sub) : cbk := CbFut label (length (s_futs s)) raise_error.
 
 (* ---------- the callback bodies ---------- *)
 Definition resolve (raise_error : bool) (rc : Z) : fut :=
@@ -167,9 +184,24 @@ Definition set_rc (w : world) (x : nat * Z) : world :=
       end
   end.
 
+(* callback(returncode) run by the IOLoop for a late registration *)
+Definition late_call (w : world) (sid : nat) (c : cbk) (rc : Z) : world :=
+  match nth_error (w_subs w) sid with
+  | None => mkW (w_kern w) (w_subs w) (w_waiting w) (w_queue w) (w_init w) (w_log w ++ [LBadRef sid])
+  | Some s =>
+      let '(s3, evs) := invoke sid s c rc in
+      mkW (w_kern w) (upd_nth sid s3 (w_subs w)) (w_waiting w) (w_queue w) (w_init w) (w_log w ++ evs)
+  end.
+
+Definition run_item (w : world) (x : qitem) : world :=
+  match x with
+  | QSet sid st => set_rc w (sid, st)
+  | QCall sid c rc => late_call w sid c rc
+  end.
+
 (* one turn of the IOLoop: the callbacks queued so far run in order *)
 Definition run_loop (w : world) : world :=
-  fold_left set_rc (w_queue w)
+  fold_left run_item (w_queue w)
             (mkW (w_kern w) (w_subs w) (w_waiting w) [] (w_init w) (w_log w)).
 
 (* ---------- events ---------- *)
@@ -193,8 +225,8 @@ Definition step (w : world) (e : event) : world :=
       | _ => w
       end
   | ESigchld => if w_init w then cleanup w else w      (* no handler installed: signal ignored *)
-  | EReg sid l => register w sid (set_cb (CbPlain l))
-  | EWait sid l re => register w sid (add_fut l re)
+  | EReg sid l => register w sid prep_plain (cb_plain l)
+  | EWait sid l re => register w sid (prep_fut l) (cb_fut l re)
   | ELoop => run_loop w
   end.
 
